@@ -11,7 +11,7 @@ import (
 )
 
 func main() {
-	mode := flag.String("mode", "raw", "raw | composite | http | cluster | storm")
+	mode := flag.String("mode", "raw", "raw | composite | compfail | slowsub | http | cluster | storm")
 	n := flag.Int("n", 10, "number of cases")
 	seed := flag.Uint64("seed", 1, "PRNG seed")
 	shard := flag.Int("shard", 0, "shard index (mixed into the seed and the case ids)")
@@ -36,6 +36,10 @@ func main() {
 			rawCase(w, rng, id)
 		case "composite":
 			compositeCase(w, rng, id)
+		case "compfail":
+			compositeFailCase(w, rng, id)
+		case "slowsub":
+			slowSubCase(w, rng, id)
 		case "http":
 			httpCase(w, rng, id)
 		case "cluster":
